@@ -1,6 +1,7 @@
 """Implementation wrapper."""
 from typing import Any, Callable, Optional, Sequence, Tuple
 
+import numpy
 import numpoly
 
 from .baseclass import ndpoly
@@ -85,6 +86,19 @@ def simple_dispatch(
     """
     inputs = numpoly.align_polynomials(*inputs)
     keys = (inputs[0] if out is None else numpoly.aspolynomial(out[0])).keys
+    if out is not None:
+        # the output array can only take the terms it has fields for: a
+        # result with any other term is refused instead of silently truncated
+        target = numpoly.aspolynomial(out[0])
+        known = set(keys) if target.names == inputs[0].names else set()
+        for key in inputs[0].keys:
+            if key not in known and numpy.any(
+                numpy_func(*[poly.values[key] for poly in inputs], **kwargs)
+            ):
+                raise ValueError(
+                    "'out' has no storage for a term of the result; "
+                    "align it with the operands first"
+                )
 
     tmp = numpy_func(*[poly.values[keys[0]] for poly in inputs], **kwargs)
     if out is None:
